@@ -1,126 +1,75 @@
-import AcraModel.Wire.LenEncLemmas
+import AcraModel.Wire.LenEncProofs
+import AcraModel.Wire.PgLemmas
+import AcraModel.Wire.MysqlLemmas
+import AcraModel.Wire.ByteaLemmas
+import AcraModel.Wire.PgExtLemmas
 /-!
 # C12 — relayed messages stay byte-identical; rewritten ones stay well-formed
 
-Property theorems only (helper lemmas live next to the models). Part 1: the MySQL length-encoded
-integer/string codec (`decryptor/mysql/base/utils.go`), whose tables are regenerated from the source.
+Property theorems only; the proofs live next to the models (`Wire/*Lemmas.lean`, `Wire/LenEncProofs.lean`)
+and are restated here under the property's names.
+
+* part 1 – MySQL length-encoded integer/string codec (`decryptor/mysql/base/utils.go`)
+* part 2 – PostgreSQL framing, DataRow parsing/rewriting, Query replacement (`decryptor/postgresql/packet_handler.go`)
+* part 3 – MySQL packet framing, text and binary rows (`decryptor/mysql/{packet.go,response_proxy.go}`)
+* part 4 – bytea text codecs (`utils/dbByteArrayEncoders.go`)
 -/
 namespace AcraModel.Props.C12
 open AcraModel AcraModel.Wire.LenEnc Generated.LenEnc
 
-/-! ## facts the proofs need from the regenerated tables -/
+/-! ## part 1 — length-encoded codec: facts the proofs need from the regenerated tables -/
 
 /-- The reader's switch has exactly the protocol's four markers, each guarded by the length it reads. -/
 theorem fact_readCases :
     readCases = [(251, 0, 1, true, []), (252, 3, 3, false, pairsFrom 1 0 2),
-      (253, 4, 4, false, pairsFrom 1 0 3), (254, 9, 9, false, pairsFrom 1 0 8)] := by rfl
+      (253, 4, 4, false, pairsFrom 1 0 3), (254, 9, 9, false, pairsFrom 1 0 8)] := Proofs.fact_readCases
 
-theorem fact_readDefault : readDefault = (1, pairsFrom 0 0 1) ∧ emptyIsError = true := by decide
+/-- The fall-through path reads one byte; an empty input is an error. -/
+theorem fact_readDefault : readDefault = (1, pairsFrom 0 0 1) ∧ emptyIsError = true := Proofs.fact_readDefault
 
 /-- The writer's thresholds are the protocol's: 250, 2^16-1, 2^24-1, 2^64-1 with markers fc, fd, fe. -/
 theorem fact_putCases :
     putCases = [(250, -1, (List.range 1).map (fun j => 0 + 8 * j)), (65535, 252, (List.range 2).map (fun j => 0 + 8 * j)),
-      (16777215, 253, (List.range 3).map (fun j => 0 + 8 * j)), (2^64 - 1, 254, (List.range 8).map (fun j => 0 + 8 * j))] := by decide
+      (16777215, 253, (List.range 3).map (fun j => 0 + 8 * j)), (2^64 - 1, 254, (List.range 8).map (fun j => 0 + 8 * j))] :=
+  Proofs.fact_putCases
 
 /-- `LengthEncodedString` looks at the error of `LengthEncodedInt` before using the length. -/
-theorem fact_strChecksErr : strChecksErrFirst = true := by decide
+theorem fact_strChecksErr : strChecksErrFirst = true := Proofs.fact_strChecksErr
 
-/-! ## the writer -/
+/-- Values up to 250 are written as the single byte. -/
+theorem put_small (n : Nat) (h : n ≤ 250) : putLengthEncodedInt n = [UInt8.ofNat n] := Proofs.put_small n h
 
-theorem put_small (n : Nat) (h : n ≤ 250) : putLengthEncodedInt n = [UInt8.ofNat n] := by
-  have : n % 256 = n := by omega
-  simp [putLengthEncodedInt, fact_putCases, putWith, h, this]
-
+/-- Closed form of the writer: marker byte and little-endian body by threshold. -/
 theorem put_marker (n : Nat) :
     putLengthEncodedInt n =
       if n ≤ 250 then leBytes 1 n
       else if n ≤ 65535 then 252 :: leBytes 2 n
       else if n ≤ 16777215 then 253 :: leBytes 3 n
       else if n ≤ 2^64 - 1 then 254 :: leBytes 8 n
-      else [] := by
-  have e := fun k => map_shifts_eq_leBytes n k 0
-  simp only [Nat.shiftRight_zero] at e
-  unfold putLengthEncodedInt
-  rw [fact_putCases]
-  simp only [putWith, e]
-  repeat' split
-  all_goals first | rfl | simp_all
+      else [] := Proofs.put_marker n
 
-/-! ## the reader on marker-prefixed input -/
-
+/-- The reader on a marker-prefixed input returns the little-endian value of the body. -/
 theorem read_marker (m : UInt8) (k : Nat) (body r : Bytes) (hk : body.length = k)
     (hm : (m.toNat = 252 ∧ k = 2) ∨ (m.toNat = 253 ∧ k = 3) ∨ (m.toNat = 254 ∧ k = 8)) :
-    lengthEncodedInt (m :: body ++ r) = .ok ⟨leVal body, false, k + 1⟩ := by
-  have hor : orVal (m :: (body ++ r)) (pairsFrom 1 0 k) = .ok (leVal body) := by
-    rw [orVal_pairsFrom _ k 1 0 (by simp; omega) (by omega)]
-    simp [← hk]
-  unfold lengthEncodedInt readIntWith
-  rw [fact_readCases, fact_readDefault.2]
-  simp only [List.cons_append, goIndex_cons_zero, Out.bind_ok]
-  rcases hm with ⟨h, rfl⟩ | ⟨h, rfl⟩ | ⟨h, rfl⟩ <;>
-    simp [List.find?, h, hor, hk] <;> omega
+    lengthEncodedInt (m :: body ++ r) = .ok ⟨leVal body, false, k + 1⟩ := Proofs.read_marker m k body r hk hm
 
+/-- The reader on a first byte ≤ 250 returns that byte. -/
 theorem read_small (x : UInt8) (r : Bytes) (h : x.toNat ≤ 250) :
-    lengthEncodedInt (x :: r) = .ok ⟨x.toNat, false, 1⟩ := by
-  have hor : orVal (x :: r) (pairsFrom 0 0 1) = .ok x.toNat := by
-    rw [orVal_pairsFrom _ 1 0 0 (by simp) (by omega)]
-    simp [leVal]
-  unfold lengthEncodedInt readIntWith
-  rw [fact_readCases, fact_readDefault.1, fact_readDefault.2]
-  have h1 : ¬ 251 = x.toNat := by omega
-  have h2 : ¬ 252 = x.toNat := by omega
-  have h3 : ¬ 253 = x.toNat := by omega
-  have h4 : ¬ 254 = x.toNat := by omega
-  simp [goIndex_cons_zero, List.find?, h1, h2, h3, h4, hor]
-
-/-! ## property theorems -/
+    lengthEncodedInt (x :: r) = .ok ⟨x.toNat, false, 1⟩ := Proofs.read_small x r h
 
 /-- **Integer round trip.** Every 64-bit value written by `PutLengthEncodedInt`, followed by any
 bytes, is read back by `LengthEncodedInt` as the same value, not NULL, consuming exactly the bytes
 written. Covers every threshold (250/251, 2^16, 2^24) at once. -/
 theorem lenenc_int_roundtrip (n : Nat) (r : Bytes) (h : n < 2^64) :
-    lengthEncodedInt (putLengthEncodedInt n ++ r) = .ok ⟨n, false, (putLengthEncodedInt n).length⟩ := by
-  rw [put_marker]
-  by_cases h1 : n ≤ 250
-  · have hb : (UInt8.ofNat (n % 256)).toNat = n := by rw [ofNat_toNat_mod]; omega
-    simp only [h1, if_true, leBytes, List.cons_append, List.nil_append, List.length_cons, List.length_nil]
-    rw [read_small _ _ (by omega), hb]
-  · by_cases h2 : n ≤ 65535
-    · simp only [h1, h2, if_true, if_false]
-      rw [read_marker 252 2 (leBytes 2 n) r (by simp) (by decide), leVal_leBytes_of_lt 2 n (by omega)]
-      simp
-    · by_cases h3 : n ≤ 16777215
-      · simp only [h1, h2, h3, if_true, if_false]
-        rw [read_marker 253 3 (leBytes 3 n) r (by simp) (by decide), leVal_leBytes_of_lt 3 n (by omega)]
-        simp
-      · have h4 : n ≤ 2^64 - 1 := by omega
-        simp only [h1, h2, h3, h4, if_true, if_false]
-        rw [read_marker 254 8 (leBytes 8 n) r (by simp) (by decide), leVal_leBytes_of_lt 8 n (by omega)]
-        simp
+    lengthEncodedInt (putLengthEncodedInt n ++ r) = .ok ⟨n, false, (putLengthEncodedInt n).length⟩ :=
+  Proofs.lenenc_int_roundtrip n r h
 
 /-- **String round trip, NULL ≠ empty.** A value (or SQL NULL) written by `PutLengthEncodedString`
 followed by any bytes is read back identically, consuming exactly what was written; NULL comes back
 as NULL and the empty string as the empty string. -/
 theorem lenenc_str_roundtrip (v : Option Bytes) (r : Bytes) (h : ∀ b, v = some b → b.length < 2^64) :
-    lengthEncodedString (putLengthEncodedString v ++ r) = .ok (v, (putLengthEncodedString v).length) := by
-  cases v with
-  | none =>
-    have : lengthEncodedInt (0xfb :: r) = .ok ⟨0, true, 1⟩ := by
-      unfold lengthEncodedInt readIntWith
-      rw [fact_readCases, fact_readDefault.2]
-      simp [goIndex_cons_zero, List.find?, orVal]
-    simp [putLengthEncodedString, lengthEncodedString, this]
-  | some b =>
-    have hb := h b rfl
-    simp only [putLengthEncodedString, lengthEncodedString, List.append_assoc]
-    rw [lenenc_int_roundtrip b.length (b ++ r) hb]
-    simp only [Out.bind_ok, List.length_append]
-    have hle : ¬ b.length > (putLengthEncodedInt b.length).length + (b.length + r.length) - (putLengthEncodedInt b.length).length := by omega
-    simp only [Bool.false_eq_true, if_false, hle]
-    have := goSlice_append_mid (putLengthEncodedInt b.length) b r
-    rw [List.append_assoc] at this
-    rw [this]
-    simp
+    lengthEncodedString (putLengthEncodedString v ++ r) = .ok (v, (putLengthEncodedString v).length) :=
+  Proofs.lenenc_str_roundtrip v r h
 
 /-- **Closed form of the reader** (the independent specification decoder): on a non-empty input the
 reader's result is determined by the first byte exactly as the MySQL protocol says. -/
@@ -130,109 +79,380 @@ theorem lenenc_int_spec (x : UInt8) (r : Bytes) :
       else if x.toNat = 252 then (if r.length < 2 then .err else .ok ⟨leVal (r.take 2), false, 3⟩)
       else if x.toNat = 253 then (if r.length < 3 then .err else .ok ⟨leVal (r.take 3), false, 4⟩)
       else if x.toNat = 254 then (if r.length < 8 then .err else .ok ⟨leVal (r.take 8), false, 9⟩)
-      else .ok ⟨x.toNat, false, 1⟩ := by
-  have hk : ∀ k, k ≤ 8 → k ≤ r.length → orVal (x :: r) (pairsFrom 1 0 k) = .ok (leVal (r.take k)) := by
-    intro k hk8 hlen
-    rw [orVal_pairsFrom _ k 1 0 (by simp; omega) (by omega)]; simp
-  have hdef : orVal (x :: r) (pairsFrom 0 0 1) = .ok x.toNat := by
-    rw [orVal_pairsFrom _ 1 0 0 (by simp) (by omega)]; simp [leVal]
-  unfold lengthEncodedInt readIntWith
-  rw [fact_readCases, fact_readDefault.1, fact_readDefault.2]
-  simp only [List.length_cons, goIndex_cons_zero, Out.bind_ok]
-  rw [if_neg (by omega)]
-  by_cases h1 : x.toNat = 251
-  · simp [List.find?, h1, orVal]
-  by_cases h2 : x.toNat = 252
-  · simp only [List.find?, h2]
-    by_cases hl : r.length < 2
-    · simp [hl]; omega
-    · simp [hl, hk 2 (by omega) (by omega)]; omega
-  by_cases h3 : x.toNat = 253
-  · simp only [List.find?, h3]
-    by_cases hl : r.length < 3
-    · simp [hl]; omega
-    · simp [hl, hk 3 (by omega) (by omega)]; omega
-  by_cases h4 : x.toNat = 254
-  · simp only [List.find?, h4]
-    by_cases hl : r.length < 8
-    · simp [hl]; omega
-    · simp [hl, hk 8 (by omega) (by omega)]; omega
-  have e1 : ¬ 251 = x.toNat := fun h => h1 h.symm
-  have e2 : ¬ 252 = x.toNat := fun h => h2 h.symm
-  have e3 : ¬ 253 = x.toNat := fun h => h3 h.symm
-  have e4 : ¬ 254 = x.toNat := fun h => h4 h.symm
-  simp [List.find?, h1, h2, h3, h4, e1, e2, e3, e4, hdef]
+      else .ok ⟨x.toNat, false, 1⟩ := Proofs.lenenc_int_spec x r
 
-theorem lenenc_int_empty : lengthEncodedInt [] = .err := by
-  unfold lengthEncodedInt readIntWith; rw [fact_readDefault.2]; simp
+/-- An empty input is an error, not a value. -/
+theorem lenenc_int_empty : lengthEncodedInt [] = .err := Proofs.lenenc_int_empty
 
 /-- **No panic.** `LengthEncodedInt` never panics, whatever the input. -/
-theorem lenenc_int_no_panic (data : Bytes) : lengthEncodedInt data ≠ .panic := by
-  cases data with
-  | nil => rw [lenenc_int_empty]; simp
-  | cons x r => rw [lenenc_int_spec]; repeat' split
-                all_goals simp
+theorem lenenc_int_no_panic (data : Bytes) : lengthEncodedInt data ≠ .panic := Proofs.lenenc_int_no_panic data
 
 /-- A successful integer read consumes between 1 and `|data|` bytes. -/
 theorem lenenc_int_progress (data : Bytes) (res : IntRes) (h : lengthEncodedInt data = .ok res) :
-    0 < res.n ∧ res.n ≤ data.length := by
-  cases data with
-  | nil => rw [lenenc_int_empty] at h; cases h
-  | cons x r =>
-    rw [lenenc_int_spec] at h
-    repeat' split at h
-    all_goals (first | cases h | skip)
-    all_goals (simp only [List.length_cons]; omega)
+    0 < res.n ∧ res.n ≤ data.length := Proofs.lenenc_int_progress data res h
 
-theorem lenenc_str_no_panic (data : Bytes) : lengthEncodedString data ≠ .panic := by
-  unfold lengthEncodedString
-  cases hr : lengthEncodedInt data with
-  | panic => exact absurd hr (lenenc_int_no_panic data)
-  | err => simp
-  | ok res =>
-    have hp := lenenc_int_progress data res hr
-    simp only [Out.bind_ok]
-    split
-    · simp
-    · split
-      · simp
-      · next hn =>
-        have : goSlice data res.n (res.n + res.num) = .ok ((data.take (res.n + res.num)).drop res.n) := by
-          unfold goSlice; rw [if_pos]; omega
-        simp [this]
+/-- `LengthEncodedString` never panics, whatever the input. -/
+theorem lenenc_str_no_panic (data : Bytes) : lengthEncodedString data ≠ .panic := Proofs.lenenc_str_no_panic data
 
 /-- **Progress.** A successful string read consumes at least one byte and never more than the input
 holds – so a caller's loop over a row terminates inside the buffer. -/
 theorem lenenc_str_progress (data : Bytes) (v : Option Bytes) (n : Nat)
-    (h : lengthEncodedString data = .ok (v, n)) : 0 < n ∧ n ≤ data.length := by
-  unfold lengthEncodedString at h
-  cases hr : lengthEncodedInt data with
-  | panic => simp [hr] at h
-  | err => simp [hr] at h
-  | ok res =>
-    have hp := lenenc_int_progress data res hr
-    simp only [hr, Out.bind_ok] at h
-    split at h
-    · simp at h; omega
-    · split at h
-      · simp at h
-      · next hn =>
-        have : goSlice data res.n (res.n + res.num) = .ok ((data.take (res.n + res.num)).drop res.n) := by
-          unfold goSlice; rw [if_pos]; omega
-        simp [this] at h
-        omega
+    (h : lengthEncodedString data = .ok (v, n)) : 0 < n ∧ n ≤ data.length := Proofs.lenenc_str_progress data v n h
 
-theorem lenenc_skip_no_panic (data : Bytes) : skipLengthEncodedString data ≠ .panic := by
-  unfold skipLengthEncodedString
-  cases hr : lengthEncodedInt data with
-  | panic => exact absurd hr (lenenc_int_no_panic data)
-  | err => simp
-  | ok res => simp only [Out.bind_ok]; repeat' split
-              all_goals simp
+/-- `SkipLengthEncodedString` never panics. -/
+theorem lenenc_skip_no_panic (data : Bytes) : skipLengthEncodedString data ≠ .panic := Proofs.lenenc_skip_no_panic data
+
+/-! ## part 2 — PostgreSQL -/
+
+open AcraModel.Wire.Pg in
+/-- Facts from the regenerated constants the PostgreSQL model relies on: the length field is 4 bytes
+and counts itself, start-up packets carry no type byte (marker 0), a NULL column is length -1
+(0xffffffff on the wire), Terminate is `X 0 0 0 4`, formats are 0 = text / 1 = binary. -/
+theorem fact_pg_constants :
+    Generated.Wire.pgDataRowLengthBufSize = 4 ∧ Generated.Wire.pgWithoutMessageType = 0 ∧
+    Generated.Wire.pgNullColumnValue = -1 ∧ nullLen = 2^32 - 1 ∧
+    Generated.Wire.pgTerminatePacket = [88, 0, 0, 0, 4] ∧ Generated.Wire.pgTerminateTag = [88] ∧
+    Generated.Wire.pgBindFormatText = 0 ∧ Generated.Wire.pgBindFormatBinary = 1 ∧
+    Generated.Wire.pgStartupRequest = [0, 3, 0, 0] ∧
+    Generated.Wire.pgSSLRequestHeader = [0, 0, 0, 8, 4, 210, 22, 47] ∧
+    Generated.Wire.pgCancelRequestHeader = [0, 0, 0, 16, 4, 210, 22, 46] ∧
+    Generated.Wire.pgGSSENCRequestHeader = [0, 0, 0, 8, 4, 210, 22, 48] := by decide
+
+open AcraModel.Wire.Pg in
+/-- **Relay identity, PostgreSQL (database side).** Reading any well-framed message (any type byte, any
+body) followed by any further bytes with `ReadPacket` and marshalling it again gives exactly the bytes
+received, and the following bytes are left untouched on the stream. -/
+theorem relay_identity_pg_db (t : UInt8) (body rest : Bytes) (ht : t.toNat ≠ 0) (h : body.length + 4 < 2^32) :
+    ∃ p, readDb (encodeMsg t body ++ rest) = .ok (p, rest) ∧ marshal p = encodeMsg t body :=
+  marshal_readDb_encodeMsg t body rest ht h
+
+open AcraModel.Wire.Pg in
+/-- **Relay identity, PostgreSQL (client side, after start-up).** Same for `readGeneralPacket`,
+including the Terminate special case. -/
+theorem relay_identity_pg_client (t : UInt8) (body rest : Bytes) (ht : t.toNat ≠ 0) (h : body.length + 4 < 2^32) :
+    ∃ p, readGeneral (encodeMsg t body ++ rest) = .ok (p, rest) ∧ marshal p = encodeMsg t body :=
+  ⟨_, readGeneral_encodeMsg t body rest h, marshal_encodeMsg t body ht⟩
+
+open AcraModel.Wire.Pg in
+/-- The specification decoder inverts the specification encoder of a message (so `encodeMsg` is a
+faithful description of "well-framed": declared length = actual length). -/
+theorem pg_msg_spec_roundtrip (t : UInt8) (body rest : Bytes) (h : body.length + 4 < 2^32) :
+    decodeMsg (encodeMsg t body ++ rest) = some (t, body, rest) := decodeMsg_encodeMsg t body rest h
+
+open AcraModel.Wire.Pg in
+/-- **DataRow round trip** of the specification codec: every row (NULLs, empty values, any lengths
+below the protocol's limits) decodes to itself, with every byte consumed. -/
+theorem pg_row_roundtrip (r : Row) (hr : r.length < 2^16) (hb : ∀ b, some b ∈ r → b.length < 2^32 - 1) :
+    decodeRow (encodeRow r) = some r := decodeRow_encodeRow r hr hb
+
+open AcraModel.Wire.Pg in
+/-- **Rewritten DataRow stays well-formed (PostgreSQL).** For ANY per-column transformation `f`
+(shrinking, growing, keeping the length) Acra's parse → transform → `updateDataFromColumns` pipeline
+turns the DataRow of row `r` into exactly the specification encoding of the transformed row: the field
+count and the NULL markers are preserved, every declared column length equals the actual length, the
+packet length field equals the body length + 4, and columns whose transformation is the identity keep
+their bytes. -/
+theorem rewrite_wellformed_pg (f : Nat → Bytes → Bytes) (fmts : List Nat) (t : UInt8) (lb : Bytes)
+    (r : Row) (hne : r ≠ []) (hr : r.length < 2^16)
+    (hb : ∀ b, some b ∈ r → b.length < 2^32 - 1)
+    (hb' : ∀ b, some b ∈ mapRow f 0 r → b.length < 2^32 - 1)
+    (hsz : (encodeRow (mapRow f 0 r)).length + 4 < 2^32)
+    (hf : ∀ i, i < r.length → ∃ b, formatByIndex i fmts = .ok b)
+    (hck : checkFormats fmts = .ok ())
+    (hnn : ∃ b, some b ∈ r) :
+    rewriteRow (fun i d => .ok (f i d)) fmts ⟨t, lb, encodeRow r⟩ =
+      .ok ⟨t, beBytes 4 ((encodeRow (mapRow f 0 r)).length + 4), encodeRow (mapRow f 0 r)⟩ :=
+  rewriteRow_encodeRow f fmts t lb r hne hr hb hb' hsz hf hck hnn
+
+open AcraModel.Wire.Pg in
+/-- A DataRow whose columns are all NULL (or that has no columns) is left byte-identical, whatever the
+subscribers would do. -/
+theorem rewrite_allnull_identity_pg (g : Nat → Bytes → Out Bytes) (fmts : List Nat) (t : UInt8)
+    (lb : Bytes) (r : Row) (hr : r.length < 2^16)
+    (hf : ∀ i, i < r.length → ∃ b, formatByIndex i fmts = .ok b)
+    (hck : checkFormats fmts = .ok ())
+    (hn : ∀ v, v ∈ r → v = none) :
+    rewriteRow g fmts ⟨t, lb, encodeRow r⟩ = .ok ⟨t, lb, encodeRow r⟩ :=
+  rewriteRow_encodeRow_allNull g fmts t lb r hr hf hck hn
+
+open AcraModel.Wire.Pg in
+/-- A failing column transformation fails the whole row: no partly rewritten DataRow is produced. -/
+theorem rewrite_fail_pg (g : Nat → Bytes → Out Bytes) (fmts : List Nat) (t : UInt8) (lb : Bytes)
+    (pre post : Row) (b : Bytes) (hr : (pre ++ some b :: post).length < 2^16)
+    (hb : ∀ x, some x ∈ pre ++ some b :: post → x.length < 2^32 - 1)
+    (hf : ∀ i, i < (pre ++ some b :: post).length → ∃ fb, formatByIndex i fmts = .ok fb)
+    (hck : checkFormats fmts = .ok ())
+    (hpre : ∀ j d, pre[j]? = some (some d) → ∃ d', g j d = .ok d')
+    (hg : g pre.length b = .err) :
+    rewriteRow g fmts ⟨t, lb, encodeRow (pre ++ some b :: post)⟩ = .err :=
+  rewriteRow_fail g fmts t lb pre post b hr hb hf hck hpre hg
+
+open AcraModel.Wire.Pg in
+/-- **Rewritten Query stays well-formed.** `ReplaceQuery` on a simple Query message yields exactly the
+well-framed Query message carrying the new text and its terminator. -/
+theorem rewrite_wellformed_pg_query (lb old q : Bytes) (h : q.length + 5 < 2^32) :
+    marshal (replaceSimpleQuery ⟨81, lb, old⟩ q) = encodeMsg 81 (q ++ [0]) :=
+  replaceSimpleQuery_wellformed lb old q h
+
+open AcraModel.Wire.Pg in
+/-- **Relay identity and specification round trip, Parse.** A well-formed Parse body (names without zero
+bytes, any parameter type OIDs) is parsed into its fields and marshalled back to exactly its bytes, and
+the specification decoder recovers name, query and OIDs. -/
+theorem relay_identity_pg_parse (name query : Bytes) (oids : List Nat) (hn : NoZero name)
+    (hq : NoZero query) (hl : oids.length < 2^16) (ho : ∀ o ∈ oids, o < 2^32) :
+    (∃ p, newParsePacket (encodeParse name query oids) = .ok p ∧
+      p.marshal = encodeParse name query oids ∧ p.length = (encodeParse name query oids).length) ∧
+    decodeParse (encodeParse name query oids) = some (name, query, oids) :=
+  ⟨marshal_newParsePacket name query oids hn hq hl ho, decodeParse_encodeParse name query oids hn hq hl ho⟩
+
+open AcraModel.Wire.Pg in
+/-- **Rewritten Parse stays well-formed.** `ReplaceQuery` on a Parse message yields exactly the
+well-framed Parse message with the new query text, the same statement name and the same parameter types. -/
+theorem rewrite_wellformed_pg_parse (name query q lb : Bytes) (oids : List Nat) (hn : NoZero name)
+    (hq : NoZero query) (hl : oids.length < 2^16) (ho : ∀ o ∈ oids, o < 2^32) (hq' : NoZero q)
+    (hsz : (encodeParse name q oids).length + 4 < 2^32) :
+    ∃ p, replaceParseQuery ⟨80, lb, encodeParse name query oids⟩ q = .ok p ∧
+      marshal p = encodeMsg 80 (encodeParse name q oids) :=
+  replaceParseQuery_marshal name query q lb oids hn hq hl ho hq' hsz
+
+open AcraModel.Wire.Pg in
+/-- **Relay identity, Bind.** A well-formed Bind body is parsed into portal, statement, parameter formats,
+parameter values (NULL ≠ empty) and result formats, and marshalled back to exactly its bytes. -/
+theorem relay_identity_pg_bind (portal stmt : Bytes) (pf : List Nat) (pv : List (Option Bytes))
+    (rf : List Nat) (hp : NoZero portal) (hs : NoZero stmt)
+    (hpf : pf.length < 2^16 ∧ ∀ f ∈ pf, f < 2^16) (hrf : rf.length < 2^16 ∧ ∀ f ∈ rf, f < 2^16)
+    (hpv : pv.length < 2^16 ∧ ∀ b, some b ∈ pv → b.length < 2^32 - 1) :
+    ∃ p, newBindPacket (encodeBind portal stmt pf pv rf) = .ok p ∧
+      BindPacket.marshal p = .ok (encodeBind portal stmt pf pv rf) :=
+  marshal_newBindPacket_relay portal stmt pf pv rf hp hs hpf hrf hpv
+
+open AcraModel.Wire.Pg in
+/-- **Rewritten Bind stays well-formed.** For ANY per-parameter transformation `f` (NULL parameters stay
+NULL) `GetParameters → SetParameters → ReplaceBind` yields exactly the well-framed Bind message with the
+transformed parameters: portal, statement and result formats untouched, parameter count and NULL markers
+preserved, every declared parameter length equal to the actual one, the packet length equal to the body
+length + 4, and parameter formats that denote the same format for every parameter
+(`formatByIndex i (canonFormats pf n) = formatByIndex i pf`). -/
+theorem rewrite_wellformed_pg_bind (f : Nat → Bytes → Bytes)
+    (g : Nat → Bool → Option Bytes → Out (Option Bytes))
+    (hg : ∀ i b v, g i b v = .ok (v.map (f i)))
+    (portal stmt lb : Bytes) (pf : List Nat) (pv : List (Option Bytes)) (rf : List Nat)
+    (hp : NoZero portal) (hs : NoZero stmt)
+    (hpf : pf.length < 2^16 ∧ ∀ f ∈ pf, f < 2^16) (hrf : rf.length < 2^16 ∧ ∀ f ∈ rf, f < 2^16)
+    (hpv : pv.length < 2^16 ∧ ∀ b, some b ∈ pv → b.length < 2^32 - 1)
+    (hpv' : ∀ b, some b ∈ mapRow f 0 pv → b.length < 2^32 - 1)
+    (hne : pv ≠ [])
+    (hfmt : ∀ i, i < pv.length → ∃ b, formatByIndex i pf = .ok b)
+    (hsz : (encodeBind portal stmt (canonFormats pf pv.length) (mapRow f 0 pv) rf).length + 4 < 2^32) :
+    (∃ p, rewriteBind g ⟨66, lb, encodeBind portal stmt pf pv rf⟩ = .ok p ∧
+      marshal p = encodeMsg 66 (encodeBind portal stmt (canonFormats pf pv.length) (mapRow f 0 pv) rf)) ∧
+    (∀ i, i < pv.length → formatByIndex i (canonFormats pf pv.length) = formatByIndex i pf) :=
+  ⟨rewriteBind_marshal f g hg portal stmt lb pf pv rf hp hs hpf hrf hpv hpv' hne hfmt hsz,
+   formatByIndex_canonFormats pf pv.length hfmt⟩
+
+/-! ## part 3 — MySQL -/
+
+open AcraModel.Wire.My in
+/-- Facts from the regenerated constants the MySQL model relies on, and agreement of the two tables of
+fixed-width types (`extractData` reads exactly the widths `NumericTypesStorageBytes` declares), and
+presence of the bounds checks in front of every read of `extractData` (the model's `.err` branches). -/
+theorem fact_my_constants :
+    Generated.Wire.myPacketHeaderSize = 4 ∧ Generated.Wire.mySequenceIDIndex = 3 ∧
+    Generated.Wire.myMaxPayloadLen = 2^24 - 1 ∧
+    Generated.Wire.myOkPacket = 0 ∧ Generated.Wire.myEOFPacket = 254 ∧ Generated.Wire.myErrPacket = 255 ∧
+    Generated.Wire.myExtractFixed = Generated.Wire.myNumericStorageBytes ∧
+    (∀ t, t ∈ Generated.Wire.myExtractLenEnc → Generated.Wire.myExtractFixed.find? (·.1 = t) = none) ∧
+    Generated.Wire.myExtractFixedGuarded = true ∧ Generated.Wire.myExtractLenEncGuarded = true := by decide
+
+open AcraModel.Wire.My in
+/-- **Relay identity, MySQL – partial.** A packet whose payload has 1 … 2^24-2 bytes, followed by any
+bytes, is read and dumped byte-identically and the following bytes stay on the stream.
+
+The full statement (every payload, including those of 2^24-1 bytes or more that travel as several
+packets, and zero-length packets) is FALSE for the code as it is – see
+`relay_identity_mysql_multi_counterexample` and `relay_identity_mysql_exact_counterexample`; the extra
+hypotheses here are exactly the input classes of the known findings `my-multipacket-relay` and
+`my-zero-length-packet`. -/
+theorem relay_identity_mysql_partial (seq : Nat) (payload rest : Bytes)
+    (h1 : 1 ≤ payload.length) (h2 : payload.length < maxPayloadLen) :
+    ∃ p, read (frame seq payload ++ rest) = .ok (p, rest) ∧ dump p = frame seq payload :=
+  dump_read_frame seq payload rest h1 h2
+
+open AcraModel.Wire.My in
+/-- **Counterexample (known finding `my-multipacket-relay`).** A payload of more than 2^24-1 bytes is
+received as two packets; `readPacket` keeps only the last header and `Dump` writes that one header in
+front of the whole payload: the relayed bytes are 4 bytes shorter than, and different from, the received ones. -/
+theorem relay_identity_mysql_multi_counterexample (seq : Nat) (p1 p2 : Bytes) (hp1 : p1.length = maxPayloadLen)
+    (h1 : 1 ≤ p2.length) (h2 : p2.length < maxPayloadLen) :
+    encodePayload seq (p1 ++ p2) = frame seq p1 ++ frame (seq + 1) p2 ∧
+    read (encodePayload seq (p1 ++ p2)) =
+      .ok (⟨leBytes 3 p2.length ++ [UInt8.ofNat ((seq + 1) % 256)], p1 ++ p2⟩, []) ∧
+    (dump ⟨leBytes 3 p2.length ++ [UInt8.ofNat ((seq + 1) % 256)], p1 ++ p2⟩).length + 4
+      = (encodePayload seq (p1 ++ p2)).length ∧
+    dump ⟨leBytes 3 p2.length ++ [UInt8.ofNat ((seq + 1) % 256)], p1 ++ p2⟩ ≠ encodePayload seq (p1 ++ p2) :=
+  read_multi_not_identity seq p1 p2 hp1 h1 h2
+
+open AcraModel.Wire.My in
+/-- **Counterexample (known finding `my-multipacket-relay`, exact multiple).** A payload of exactly
+2^24-1 bytes is followed by an empty packet on the wire; that packet is rejected, so the message is not relayed at all. -/
+theorem relay_identity_mysql_exact_counterexample (seq : Nat) (p1 : Bytes) (hp1 : p1.length = maxPayloadLen) :
+    read (encodePayload seq p1) = .err := read_multi_exact_err seq p1 hp1
+
+open AcraModel.Wire.My in
+/-- **`SetData` keeps the packet well-formed – partial** (payloads below 2^24-1 bytes): the dumped
+packet is the 3-byte little-endian length, the unchanged sequence id and the new payload, and the
+declared length equals the actual one. The full statement is false for larger payloads
+(`setdata_mysql_counterexample`, known finding `my-setdata-16m`). -/
+theorem rewrite_wellformed_mysql_setdata_partial (h old d : Bytes) (hd : d.length < maxPayloadLen) (hh : h.length = 4) :
+    dump (setData ⟨h, old⟩ d) = leBytes 3 d.length ++ h.drop 3 ++ d ∧
+    (h.drop 3).length = 1 ∧
+    payloadLength (setData ⟨h, old⟩ d).header = d.length := setData_wellformed h old d hd hh
+
+open AcraModel.Wire.My in
+/-- **Counterexample (known finding `my-setdata-16m`).** For a rewritten payload of 2^24 bytes
+`updatePacketSize` declares length 0. -/
+theorem setdata_mysql_counterexample (h old d : Bytes) (hd : d.length = 16777216) (hh : h.length = 4) :
+    payloadLength (setData ⟨h, old⟩ d).header = 0 := setData_truncates h old d hd hh
+
+open AcraModel.Wire.My in
+/-- **Rewritten COM_QUERY / COM_STMT_PREPARE stays well-formed.** `replaceQuery` keeps the command byte,
+carries the new text and declares its length. -/
+theorem rewrite_wellformed_mysql_query (h old q : Bytes) (c : UInt8) (hq : q.length + 1 < maxPayloadLen) (hh : h.length = 4) :
+    replaceQuery ⟨h, c :: old⟩ q = .ok ⟨leBytes 3 (q.length + 1) ++ h.drop 3, c :: q⟩ ∧
+    (h.drop 3).length = 1 ∧
+    payloadLength (leBytes 3 (q.length + 1) ++ h.drop 3) = (c :: q).length := replaceQuery_wellformed h old q c hq hh
+
+open AcraModel.Wire.My in
+/-- **Text row round trip** of the specification codec (NULL = 0xfb, empty = 0x00, all length classes). -/
+theorem mysql_text_row_roundtrip (r : Row) (h : ∀ b, some b ∈ r → b.length < 2^64) :
+    decodeTextRow r.length (encodeTextRow r) = some r := decodeTextRow_encodeTextRow r h
+
+open AcraModel.Wire.My in
+/-- **Binary row round trip** of the specification codec (NULL bitmap with offset 2, fixed-width and
+length-encoded values). -/
+theorem mysql_bin_row_roundtrip (types : List Nat) (r : Row)
+    (hlen : types.length = r.length)
+    (hT : ∀ t, t ∈ types → widthOf t ≠ .unknown)
+    (hV : ∀ t v, (t, some v) ∈ types.zip r →
+      (∀ k, widthOf t = .fixed k → v.length = k) ∧ (widthOf t = .lenenc → v.length < 2^64)) :
+    decodeBinRow types (encodeBinRow types r) = some r := decodeBinRow_encodeBinRow types r hlen hT hV
+
+open AcraModel.Wire.My in
+/-- **Rewritten text row stays well-formed (MySQL).** For ANY per-column transformation `f`, when the
+subscribers return the length-encoded form of `f i v` (what `DataEncoderProcessor` does in the text
+protocol), `processTextDataRow` yields a row that decodes to the transformed row: field count and NULL
+markers preserved, declared lengths = actual lengths, untouched fields byte-identical. -/
+theorem rewrite_wellformed_mysql_text (f : Nat → Bytes → Bytes) (r : Row)
+    (h : ∀ b, some b ∈ r → b.length < 2^64) (hf : ∀ j b, some b ∈ r → (f j b).length < 2^64) :
+    ∃ out, textRow (fun i v => .ok (putLengthEncodedString (some (f i v)))) r.length (encodeTextRow r) = .ok out
+      ∧ out = encodeTextRow (mapRowMy f 0 r) ∧ decodeTextRow r.length out = some (mapRowMy f 0 r) := by
+  obtain ⟨out, h1, h2⟩ := textRow_decodable f r h hf
+  refine ⟨out, h1, ?_, h2⟩
+  have := textRow_encodeTextRow f r h
+  rw [h1] at this
+  cases this
+  rfl
+
+open AcraModel.Wire.My in
+/-- **Rewritten binary row stays well-formed (MySQL).** Same for `processBinaryDataRow`, for
+transformations that keep the width of fixed-width columns: header byte, NULL bitmap and field order are
+preserved and every value is in the wire form of its type. -/
+theorem rewrite_wellformed_mysql_bin (types : List Nat) (f : Nat → Bytes → Bytes) (r : Row)
+    (hlen : types.length = r.length)
+    (hT : ∀ t, t ∈ types → widthOf t ≠ .unknown)
+    (hV : ∀ t v, (t, some v) ∈ types.zip r →
+      (∀ k, widthOf t = .fixed k → v.length = k) ∧ (widthOf t = .lenenc → v.length < 2^64))
+    (hF : ∀ t v j, (t, some v) ∈ types.zip r →
+      (∀ k, widthOf t = .fixed k → (f j v).length = k) ∧ (widthOf t = .lenenc → (f j v).length < 2^64)) :
+    ∃ out, binRow (fun i v => .ok (encodeBinVal (types[i]!) (f i v))) types (encodeBinRow types r) = .ok out
+      ∧ out = encodeBinRow types (mapRowMy f 0 r) ∧ decodeBinRow types out = some (mapRowMy f 0 r) := by
+  obtain ⟨out, h1, h2⟩ := binRow_decodable types f r hlen hT hV hF
+  refine ⟨out, h1, ?_, h2⟩
+  have := binRow_encodeBinRow types f r hlen hT hV
+  rw [h1] at this
+  cases this
+  rfl
+
+/-! ## no panics (the modelled readers and rewriters, whatever the input; collected into C14 by the lead) -/
+
+open AcraModel.Wire.Pg in
+/-- **PostgreSQL framing never panics.** Whatever bytes arrive (any length field, also smaller than the
+field itself; truncated streams), `readGeneralPacket`, `ReadPacket`, `readStartupPacket` return a packet
+or an error. (True since the `fix:` that rejects negative data lengths; before it `Grow` panicked.) -/
+theorem pg_read_no_panic (started : Bool) (s : Bytes) :
+    readClient started s ≠ .panic ∧ readGeneral s ≠ .panic ∧ readStartup s ≠ .panic ∧ readDb s ≠ .panic :=
+  ⟨readClient_no_panic started s, readGeneral_no_panic s, readStartup_no_panic s, readDb_no_panic s⟩
+
+open AcraModel.Wire.Pg in
+/-- **DataRow parsing and rewriting never panic**, whatever the body, the result formats and the
+(non-panicking) subscribers. -/
+theorem pg_row_no_panic (g : Nat → Bytes → Out Bytes) (hg : ∀ i d, g i d ≠ .panic) (fmts : List Nat) (p : Packet) :
+    parseColumns p.body fmts ≠ .panic ∧ rewriteRow g fmts p ≠ .panic :=
+  ⟨parseColumns_no_panic p.body fmts, rewriteRow_no_panic g fmts p hg⟩
+
+open AcraModel.Wire.Pg in
+/-- **Parse and Bind handling never panics**, whatever the packet body (truncated parameter counts, parameter
+lists shorter than announced, missing terminators …) and the (non-panicking) observers. -/
+theorem pg_parse_bind_no_panic (g : Nat → Bool → Option Bytes → Out (Option Bytes)) (hg : ∀ i b v, g i b v ≠ .panic)
+    (data q : Bytes) (p : Packet) :
+    newParsePacket data ≠ .panic ∧ replaceParseQuery p q ≠ .panic ∧
+    newBindPacket data ≠ .panic ∧ rewriteBind g p ≠ .panic :=
+  ⟨newParsePacket_no_panic data, replaceParseQuery_no_panic p q, newBindPacket_no_panic data, rewriteBind_no_panic g hg p⟩
+
+open AcraModel.Wire.My in
+/-- **MySQL framing never panics** (`readPacket` over any stream, `replaceQuery` on any payload), and
+`readPacket` terminates: it is defined by well-founded recursion on the bytes left. -/
+theorem mysql_read_no_panic (s q : Bytes) (p : Packet) :
+    readPacket s ≠ .panic ∧ read s ≠ .panic ∧ replaceQuery p q ≠ .panic :=
+  ⟨readPacket_no_panic s, read_no_panic s, replaceQuery_no_panic p q⟩
+
+open AcraModel.Wire.My in
+/-- **MySQL row processing never panics**, for any row bytes (truncated values, short NULL bitmaps, declared
+lengths beyond the row), any field list and any (non-panicking) subscribers. -/
+theorem mysql_row_no_panic (g : Nat → Bytes → Out Bytes) (hg : ∀ i v, g i v ≠ .panic) (n : Nat) (types : List Nat) (row : Bytes) :
+    textRow g n row ≠ .panic ∧ binRow g types row ≠ .panic :=
+  ⟨textRow_no_panic g hg n row, binRow_no_panic g hg types row⟩
+
+/-! ## part 4 — bytea text codecs -/
+
+open AcraModel.Wire.Bytea in
+/-- **bytea_hex_roundtrip.** `DecodeEscaped (PgEncodeToHex b) = b` for every byte string. -/
+theorem bytea_hex_roundtrip (b : Bytes) : decodeEscaped (pgEncodeToHex b) = .ok b := decodeEscaped_pgEncodeToHex b
+
+open AcraModel.Wire.Bytea in
+/-- **bytea_octal_roundtrip.** `DecodeOctal (EncodeToOctal b) = b` for every byte string (backslashes
+doubled, non-printable bytes as three octal digits), and `DecodeEscaped` takes the octal branch on it
+(the escape form never starts with `\x`). -/
+theorem bytea_octal_roundtrip (b : Bytes) :
+    decodeOctal (encodeToOctal b) = some b ∧ decodeEscaped (encodeToOctal b) = .ok b :=
+  ⟨decodeOctal_encodeToOctal b, decodeEscaped_encodeToOctal b⟩
+
+open AcraModel.Wire.Bytea in
+/-- The escape form consists of printable ASCII only, and hex decoding accepts exactly twice as many
+digits as it returns bytes. -/
+theorem bytea_forms (b : Bytes) :
+    (∀ c ∈ encodeToOctal b, isPrintable c = true) ∧ (∀ s r, hexDecode s = some r → s.length = 2 * r.length) :=
+  ⟨encodeToOctal_printable b, hexDecode_length⟩
+
+/-! ## non-vacuity -/
 
 /-- non-vacuity: the hypotheses are met by a concrete 300-byte value (0xfc branch) with a suffix -/
 example : lengthEncodedString (putLengthEncodedString (some (List.replicate 300 7)) ++ [1, 2, 3])
     = .ok (some (List.replicate 300 7), (putLengthEncodedString (some (List.replicate 300 7))).length) :=
   lenenc_str_roundtrip _ _ (by intro b hb; cases hb; rw [List.length_replicate]; decide)
+
+open AcraModel.Wire.Pg in
+/-- non-vacuity of `rewrite_wellformed_pg`: a row with a value, a NULL and an empty value; the
+transformation grows column 0 and empties column 2 -/
+example : ∃ p, rewriteRow (fun i d => .ok (if i = 0 then d ++ [9, 9] else [])) [] ⟨68, [0, 0, 0, 21], encodeRow [some [1], none, some []]⟩ = .ok p
+    ∧ decodeRow p.body = some [some [1, 9, 9], none, some []] := ⟨_, by rfl, by rfl⟩
+
+open AcraModel.Wire.My in
+/-- non-vacuity of the MySQL row theorems on a row with a NULL, an empty string and a value -/
+example : decodeTextRow [none, some [], some [65]].length (encodeTextRow [none, some [], some [65]]) = some [none, some [], some [65]] :=
+  mysql_text_row_roundtrip [none, some [], some [65]] (by
+    intro b hb
+    simp only [List.mem_cons, Option.some.injEq, List.not_mem_nil, or_false, reduceCtorEq, false_or] at hb
+    rcases hb with rfl | rfl <;> decide)
 
 end AcraModel.Props.C12
